@@ -40,7 +40,8 @@ type Rec struct {
 	V jsontext.Value            `json:"v"`
 	X *Rec                      `json:"x"`
 	K map[string]jsontext.Value `json:"k"`
-	U jsontext.Value            `json:",unknown"`
+	C chan int                  `json:"c"` // cannot be decoded: the error is reported in front of the value
+	U jsontext.Value            `json:",embed"`
 }
 
 const nTargets = 6
@@ -367,7 +368,7 @@ func genRecDoc(t *rapid.T, cfg gen.DocCfg, depth int) []byte {
 		if i > 0 {
 			b.WriteByte(',')
 		}
-		name := rapid.SampledFrom([]string{"a", "b", "s", "m", "v", "x", "k", "zz", "unknown-1", "\\u0061", "A"}).Draw(t, "name")
+		name := rapid.SampledFrom([]string{"a", "b", "s", "m", "v", "x", "k", "zz", "unknown-1", "\\u0061", "A", "c", "zz", "extra"}).Draw(t, "name")
 		fmt.Fprintf(&b, `"%s":`, name)
 		switch {
 		case name == "b" && rapid.Bool().Draw(t, "fit"):
